@@ -586,6 +586,33 @@ func (p *shapeParser) expectReadLen(c *cursor) bool {
 	return p.expectErrCheck(c, call)
 }
 
+// skipLengthGuard consumes an optional `if length < 0 || ... { err = fmt.Errorf(...); if err != nil {return} }`
+// (a bound check of the decoded length; its adequacy is decided by C05.R1 on the SSA form).
+func (p *shapeParser) skipLengthGuard(c *cursor) {
+	is, ok := c.peek().(*ast.IfStmt)
+	if !ok || is.Else != nil || is.Init != nil || !strings.Contains(exprStr(is.Cond), "length") {
+		return
+	}
+	inner := &cursor{stmts: is.Body.List}
+	_, call := errAssign(inner.peek())
+	if call == nil || exprStr(call.Fun) != "fmt.Errorf" {
+		return
+	}
+	inner.next()
+	s := inner.peek()
+	if s == nil {
+		return
+	}
+	if _, isRet := s.(*ast.ReturnStmt); !isRet && !isErrCheck(s) {
+		return
+	}
+	inner.next()
+	if inner.peek() != nil {
+		return
+	}
+	c.next()
+}
+
 func forHeadOK(fs *ast.ForStmt) bool {
 	as, ok := fs.Init.(*ast.AssignStmt)
 	if !ok || len(as.Lhs) != 2 || len(as.Rhs) != 2 || exprStr(as.Rhs[1]) != "length" {
@@ -613,6 +640,7 @@ func (p *shapeParser) parseVectorChain(is *ast.IfStmt, f *cfield) bool {
 	if !p.expectReadLen(c) {
 		return false
 	}
+	p.skipLengthGuard(c)
 	// X = make(T, length)   (absent for fixed arrays)
 	if as, ok := c.peek().(*ast.AssignStmt); ok && len(as.Rhs) == 1 {
 		if mk, ok := as.Rhs[0].(*ast.CallExpr); ok && exprStr(mk.Fun) == "make" {
